@@ -244,4 +244,26 @@ def run (c : C) : List Op → C × List Out
   | [] => (c, [])
   | op :: ops => let r := step c op; let r' := run r.1 ops; (r'.1, r.2 :: r'.2)
 
+/-! ### Several containers at once: `AppendContainer(other)` / `AppendContainerAsBlock(other)` with `other` in
+    whatever state its history left it (offset > 0, consumed slots, spare slots in front). As the code is
+    written, ALL compartments of `other` are appended, regardless of `other.offset`. -/
+
+open PB.ByteQueue (WOp)
+
+def wstep (w : List C) : WOp → List C × Out
+  | .newc ds => (w ++ [new ds], .unit)
+  | .on i op => match w[i]? with
+    | some c => let r := step c op; (w.set i r.1, r.2)
+    | none => (w, .err "noslot")
+  | .appendFrom i j => match w[i]?, w[j]? with
+    | some c, some d => (w.set i (appendContainer c d), .unit)
+    | _, _ => (w, .err "noslot")
+  | .appendFromAsBlock i j => match w[i]?, w[j]? with
+    | some c, some d => (w.set i (appendContainerAsBlock c d), .unit)
+    | _, _ => (w, .err "noslot")
+
+def wrun (w : List C) : List WOp → List C × List Out
+  | [] => (w, [])
+  | op :: ops => let r := wstep w op; let r' := wrun r.1 ops; (r'.1, r.2 :: r'.2)
+
 end PB.Container
